@@ -509,6 +509,119 @@ func emitSteps(b *strings.Builder, name string, fd *ast.FuncDecl) {
 	b.WriteString("]\n\n")
 }
 
+// ---------------------------------------------------------------- Hash64: expression transcription
+
+func hexpr(e ast.Expr, bname string) string {
+	switch x := e.(type) {
+	case *ast.ParenExpr:
+		return hexpr(x.X, bname)
+	case *ast.Ident:
+		switch x.Name {
+		case "crc":
+			return ".crc"
+		case bname:
+			return ".b"
+		}
+	case *ast.BasicLit:
+		if v, ok := intOf(x.Value); ok {
+			return fmt.Sprintf("(.lit %d)", v)
+		}
+	case *ast.BinaryExpr:
+		switch x.Op {
+		case token.SHR:
+			if bl, ok := x.Y.(*ast.BasicLit); ok {
+				if k, ok := intOf(bl.Value); ok {
+					return fmt.Sprintf("(.shr %s %d)", hexpr(x.X, bname), k)
+				}
+			}
+		case token.XOR:
+			return fmt.Sprintf("(.xor %s %s)", hexpr(x.X, bname), hexpr(x.Y, bname))
+		}
+	case *ast.CallExpr:
+		if id, ok := x.Fun.(*ast.Ident); ok && len(x.Args) == 1 {
+			switch id.Name {
+			case "uint64", "uint32", "uint8", "byte", "int32", "int64":
+				return fmt.Sprintf("(.conv %s %s)", leanStr(id.Name), hexpr(x.Args[0], bname))
+			}
+		}
+	case *ast.IndexExpr:
+		if id, ok := x.X.(*ast.Ident); ok && id.Name == "table" {
+			return fmt.Sprintf("(.tbl %s)", hexpr(x.Index, bname))
+		}
+	}
+	return "(.unknown " + leanStr(text(e)) + ")"
+}
+
+// emitHash64 transcribes `Hash64`: the initial register, the loop (shape facts as text), the step
+// expression assigned to crc in the loop, the expression assigned after the loop, the return conversion.
+func emitHash64(b *strings.Builder, fd *ast.FuncDecl) {
+	init, step, final, ret := "0 -- unknown", "(.unknown \"missing\")", "(.unknown \"missing\")", "unknown"
+	var shape []string
+	if fd != nil {
+		afterLoop := false
+		for _, st := range fd.Body.List {
+			switch x := st.(type) {
+			case *ast.AssignStmt:
+				if len(x.Lhs) == 1 && len(x.Rhs) == 1 {
+					lhs := text(x.Lhs[0])
+					if lhs == "crc" && x.Tok == token.DEFINE {
+						if c, ok := x.Rhs[0].(*ast.CallExpr); ok && len(c.Args) == 1 && text(c.Fun) == "uint64" {
+							if bl, ok := c.Args[0].(*ast.BasicLit); ok {
+								if v, ok := intOf(bl.Value); ok {
+									init = fmt.Sprintf("%d", v)
+								}
+							}
+						}
+					} else if lhs == "crc" && afterLoop {
+						final = hexpr(x.Rhs[0], "")
+					} else {
+						shape = append(shape, text(x))
+					}
+				}
+			case *ast.ForStmt:
+				afterLoop = true
+				shape = append(shape, "for "+text(x.Init)+"; "+text(x.Cond)+"; "+text(x.Post))
+				bname := ""
+				for _, bs := range x.Body.List {
+					as, ok := bs.(*ast.AssignStmt)
+					if !ok || len(as.Lhs) != 1 || len(as.Rhs) != 1 {
+						shape = append(shape, "unknown:"+text(bs))
+						continue
+					}
+					if as.Tok == token.DEFINE {
+						bname = text(as.Lhs[0])
+						shape = append(shape, "elem "+text(as.Rhs[0]))
+					} else if text(as.Lhs[0]) == "crc" {
+						step = hexpr(as.Rhs[0], bname)
+					} else {
+						shape = append(shape, "unknown:"+text(bs))
+					}
+				}
+			case *ast.ReturnStmt:
+				if len(x.Results) == 1 {
+					if c, ok := x.Results[0].(*ast.CallExpr); ok && len(c.Args) == 1 && text(c.Args[0]) == "crc" {
+						ret = text(c.Fun)
+					}
+				}
+			default:
+				shape = append(shape, "unknown:"+text(st))
+			}
+		}
+	}
+	fmt.Fprintf(b, "def hash64Init : Nat := %s\n", init)
+	fmt.Fprintf(b, "def hash64Step : Wire.HExpr := %s\n", step)
+	fmt.Fprintf(b, "def hash64Final : Wire.HExpr := %s\n", final)
+	fmt.Fprintf(b, "def hash64Ret : String := %s\n", leanStr(ret))
+	b.WriteString("def hash64Shape : List String := [")
+	for i, sh := range shape {
+		if i > 0 {
+			b.WriteString(", ")
+		}
+		b.WriteString(leanStr(sh))
+	}
+	b.WriteString("]\n\n")
+}
+
 func emitSkel(b *strings.Builder, name string, fd *ast.FuncDecl) {
 	fmt.Fprintf(b, "def skel_%s : List (String × String) := [", name)
 	if fd == nil {
@@ -535,7 +648,7 @@ func main() {
 	outp := flag.String("out", "", "output Lean file")
 	flag.Parse()
 	var b strings.Builder
-	b.WriteString("-- generated by xlate/c05 from " + "the Go source" + "; do not edit\nimport Golib.Wire.Steps\nnamespace Gen.C05\n\n")
+	b.WriteString("-- generated by xlate/c05 from " + "the Go source" + "; do not edit\nimport Golib.Wire.Steps\nimport Golib.Wire.HashExpr\nnamespace Gen.C05\n\n")
 
 	// ---- pack types
 	packDir := filepath.Join(*repo, "lang", "pack")
@@ -628,7 +741,19 @@ func main() {
 	}
 	b.WriteString("]\n\n")
 	emitSkel(&b, "Hash64", method(hf, "", "Hash64"))
+	emitHash64(&b, method(hf, "", "Hash64"))
 	emitSkel(&b, "Hash64Str", method(hf, "", "Hash64Str"))
+	// Hash64Str: the returned expression, locals positional
+	{
+		body := "unknown"
+		if fd := method(hf, "", "Hash64Str"); fd != nil && len(fd.Body.List) == 1 {
+			if rs, ok := fd.Body.List[0].(*ast.ReturnStmt); ok && len(rs.Results) == 1 {
+				nm := &normer{loc: localsOf(fd), idx: map[string]int{}}
+				body = nm.text(rs.Results[0])
+			}
+		}
+		fmt.Fprintf(&b, "def hash64StrBody : String := %s\n\n", leanStr(body))
+	}
 
 	// ---- common header
 	ap := parse(filepath.Join(packDir, "AbstractPack.go"))
